@@ -391,3 +391,274 @@ Proof.
   - destruct (Raw_frame_reencode f b Hf Hd b' Hm) as [A B]. exists (PRaw b). split; [exact A|split; [exact B|reflexivity]].
   - destruct Hby.
 Qed.
+
+(* ------------------------------------------------------------------------------------------------ *)
+(* 2. per datagram                                                                                   *)
+(* ------------------------------------------------------------------------------------------------ *)
+Lemma Marshal_cons_ok p ps b' : Marshal (p :: ps) = Ok b' ->
+  exists d ds, marshal_packet p = Ok d /\ Marshal ps = Ok ds /\ b' = d ++ ds.
+Proof.
+  cbn [Marshal]. destruct (marshal_packet p) as [d| | |]; cbn [bind]; try discriminate.
+  destruct (Marshal ps) as [ds| | |]; cbn [bind]; try discriminate.
+  intros E. injection E as <-. exists d, ds. auto.
+Qed.
+
+Lemma mapM_cons_ok {A B} (g : A -> res B) x l r : mapM g (x :: l) = Ok r ->
+  exists y ys, g x = Ok y /\ mapM g l = Ok ys /\ r = y :: ys.
+Proof.
+  cbn [mapM]. destruct (g x) as [y| | |]; cbn [bind]; try discriminate.
+  destruct (mapM g l) as [ys| | |]; cbn [bind]; try discriminate.
+  intros E. injection E as <-. exists y, ys. auto.
+Qed.
+
+(* frame by frame: the re-encoding is again a sequence of as many frames, decoding to equivalent packets *)
+Lemma frames_reencode : forall fs ps, Forall framed16 fs -> mapM decode_frame fs = Ok ps -> Forall2 stable_pkt fs ps ->
+  forall b', Marshal ps = Ok b' ->
+  exists fs' ps', b' = List.concat fs' /\ Forall framed16 fs' /\ mapM decode_frame fs' = Ok ps' /\
+                  Forall2 pkt_equiv ps ps' /\ List.length fs' = List.length fs.
+Proof.
+  induction fs as [|f fs IH]; intros ps Hf Hm Hst b' Hb'.
+  - cbn [mapM] in Hm. injection Hm as <-. cbn [Marshal] in Hb'. injection Hb' as <-.
+    exists [], []. repeat split; constructor.
+  - apply mapM_cons_ok in Hm as (p & ps0 & Hd & Hm & ->).
+    inversion Hf as [|? ? Hf1 Hf2]; subst. inversion Hst as [|? ? ? ? Hs1 Hs2]; subst.
+    apply Marshal_cons_ok in Hb' as (d & ds & Hmp & Hms & ->).
+    destruct (frame_reencode f p Hf1 Hd Hs1 d Hmp) as (p' & Hd' & Hfd & He).
+    destruct (IH ps0 Hf2 Hm Hs2 ds Hms) as (fs' & ps' & -> & Hff & Hmm & Hee & Hl).
+    exists (d :: fs'), (p' :: ps'). cbn [List.concat mapM List.length]. rewrite Hd', Hmm, Hl.
+    repeat split; try constructor; assumption.
+Qed.
+
+(* the side conditions of a datagram, along its (unique, see frames_unique) split into frames *)
+Definition stable_dgram (b : bytes) (ps : list packet) : Prop :=
+  exists fs, b = List.concat fs /\ Forall framed16 fs /\ mapM decode_frame fs = Ok ps /\ Forall2 stable_pkt fs ps.
+
+Theorem datagram_reencode b ps : Unmarshal b = Ok ps -> stable_dgram b ps ->
+  forall b', Marshal ps = Ok b' -> exists ps', Unmarshal b' = Ok ps' /\ Forall2 pkt_equiv ps ps'.
+Proof.
+  intros Hu (fs & -> & Hf & Hm & Hst) b' Hb'.
+  destruct (frames_reencode fs ps Hf Hm Hst b' Hb') as (fs' & ps' & -> & Hf' & Hm' & He & Hl).
+  exists ps'. split; [|exact He]. rewrite Unmarshal_frames; [exact Hm'|exact Hf'|].
+  intros ->. destruct fs; [|discriminate Hl]. cbn [mapM] in Hm. injection Hm as <-.
+  unfold Unmarshal in Hu. cbn in Hu. discriminate Hu.
+Qed.
+
+(* the same with the hypothesis stated over every split Unmarshal_ok_split may return *)
+Corollary datagram_reencode_split b ps : Unmarshal b = Ok ps ->
+  (forall fs, b = List.concat fs -> Forall framed16 fs -> mapM decode_frame fs = Ok ps -> Forall2 stable_pkt fs ps) ->
+  forall b', Marshal ps = Ok b' -> exists ps', Unmarshal b' = Ok ps' /\ Forall2 pkt_equiv ps ps'.
+Proof.
+  intros Hu Hall. apply (datagram_reencode b ps Hu).
+  destruct (Unmarshal_ok_split b ps Hu) as (fs & Hc & Hf & _ & Hm). exists fs. auto.
+Qed.
+
+(* the split is unique: a frame announces its own length *)
+Lemma framed_prefix_len f r : framed f -> len f = 4 * (unbe (firstn 2 (skipn 2 (f ++ r))) + 1).
+Proof.
+  intros (H4 & _ & Hn). rewrite Hn. f_equal. f_equal. f_equal.
+  assert (Hl : (4 <= List.length f)%nat) by (unfold len in H4; lia).
+  rewrite skipn_app, firstn_app, skipn_length.
+  replace (2 - (List.length f - 2))%nat with 0%nat by lia. rewrite firstn_O, app_nil_r. reflexivity.
+Qed.
+
+Lemma frames_unique : forall fs1 fs2, Forall framed16 fs1 -> Forall framed16 fs2 ->
+  List.concat fs1 = List.concat fs2 -> fs1 = fs2.
+Proof.
+  induction fs1 as [|f1 fs1 IH]; intros fs2 H1 H2 E.
+  - destruct fs2 as [|f2 fs2]; [reflexivity|]. inversion H2 as [|? ? Hf _]; subst.
+    apply framed16_len in Hf. cbn [List.concat] in E. apply (f_equal len) in E. rewrite len_app, len_nil in E. lia.
+  - inversion H1 as [|? ? Hf1 Hr1]; subst. destruct fs2 as [|f2 fs2].
+    + apply framed16_len in Hf1. cbn [List.concat] in E. apply (f_equal len) in E. rewrite len_app, len_nil in E. lia.
+    + inversion H2 as [|? ? Hf2 Hr2]; subst. cbn [List.concat] in E.
+      assert (El : len f1 = len f2).
+      { rewrite (framed_prefix_len f1 (List.concat fs1) (proj1 Hf1)), (framed_prefix_len f2 (List.concat fs2) (proj1 Hf2)), E.
+        reflexivity. }
+      assert (E1 : f1 = f2).
+      { rewrite <- (firstn_len_app f1 (List.concat fs1)), <- (firstn_len_app f2 (List.concat fs2)), E, El. reflexivity. }
+      subst f2. apply app_inv_head in E. f_equal. apply IH; assumption.
+Qed.
+
+Corollary stable_dgram_unique b ps fs : stable_dgram b ps ->
+  b = List.concat fs -> Forall framed16 fs -> Forall2 stable_pkt fs ps.
+Proof.
+  intros (fs0 & -> & Hf0 & _ & Hst) E Hf. rewrite <- (frames_unique fs0 fs Hf0 Hf E). exact Hst.
+Qed.
+
+(* ------------------------------------------------------------------------------------------------ *)
+(* 3. Marshal of decoded packets never panics                                                        *)
+(* ------------------------------------------------------------------------------------------------ *)
+
+(* CCFB_marshal_spec up to the largest size whose length field does not wrap (262144 octets, length field 65535):
+   a 262140-octet frame can decode to a value of that size (the last report block may reach into the timestamp) *)
+Lemma CCFB_marshal_wide p : D_CCFB p = true -> CCFB_size p <= 262144 -> CCFB_marshal p = Ok (enc_CCFB p).
+Proof.
+  intros HD Hsz. apply D_CCFB_inv in HD as (Hs & Ht & Hb).
+  rewrite CCFB_size_blocks in Hsz. pose proof (blocks_len_mod4 (cc_blocks p)) as Hm4.
+  unfold CCFB_marshal, CCFB_header. rewrite CCFB_size_blocks. consts. cbn [h_len].
+  rewrite Header_marshal_spec by lia. cbn [bind].
+  set (S := blocks_len (cc_blocks p)) in *.
+  assert (EL : 4 * (u16 ((12 + S) / 4 - 1) + 1) = 4 + (4 + (S + 4))) by (unfold u16; lia).
+  rewrite EL. rewrite (zeros_add 4 (4 + (S + 4))).
+  rewrite slice_ok by (rewrite ?len_app, ?len_zeros; lia). cbn [bind].
+  rewrite copy_at_head' by reflexivity. cbn [bind].
+  rewrite (put_be_fr 4 (hdr false 11 205 (u16 ((12 + S) / 4 - 1))) (4 + (S + 4)) (cc_sender p) 4)
+    by (first [reflexivity | lia]). cbn [bind].
+  replace (4 + (S + 4) - N.of_nat 4) with (S + 4) by lia.
+  rewrite put_blocks_spec; [| exact Hb | rewrite len_app, len_be; reflexivity | fold S; lia ].
+  cbn [bind]. fold S.
+  rewrite put_be_fr; [| rewrite !len_app, len_be, enc_blocks_len; fold S; reflexivity | lia].
+  replace (S + 4 - S - N.of_nat 4) with 0 by lia. change (zeros 0) with (@nil byte). rewrite app_nil_r.
+  unfold enc_CCFB, frame. rewrite <- !app_assoc. f_equal. f_equal. f_equal.
+  rewrite !len_app, !len_be, enc_blocks_len. fold S. cbn [N.of_nat Pos.of_succ_nat Pos.succ]. unfold u16. lia.
+Qed.
+
+Lemma CCFB_reencode_no_panic f p : framed16 f -> CCFB_unmarshal f = Ok p -> CCFB_marshal p <> Panic.
+Proof.
+  intros Hf Hu. destruct (framed16_mod4 f Hf) as [Hm Hl].
+  apply CCFB_unmarshal_image in Hu as [HI Hsz].
+  pose proof (blocks_len_mod4 (cc_blocks p)) as M4. rewrite CCFB_size_blocks in Hsz.
+  assert (Hsize : CCFB_size p <= 262144) by (rewrite CCFB_size_blocks; lia).
+  destruct (in_limits (PCCFB p)) eqn:HL.
+  - cbn [in_limits] in HL.
+    assert (HD : D_CCFB p = true).
+    { unfold D_CCFB_img in HI. apply andb_true_iff in HI as [HI HB]. unfold D_CCFB. rewrite HI. cbn [andb].
+      apply D_ccblocks_of_img; assumption. }
+    rewrite (CCFB_marshal_wide p HD Hsize). discriminate.
+  - rewrite (CCFB_limits_nowrap p); [discriminate| |exact HL]. rewrite CCFB_size_blocks. lia.
+Qed.
+
+Lemma frame_marshal_no_panic f p : framed16 f -> decode_frame f = Ok p ->
+  marshal_packet p <> Panic /\ marshal_packet p <> Fuel.
+Proof.
+  intros Hf Hd. split; [|apply marshal_packet_nf].
+  destruct (framed16_mod4 f Hf) as [Hm4 Hl].
+  pose proof Hd as Hd'. apply decode_frame_inv in Hd' as (h & Hh & _ & Hby).
+  destruct p as [x|x|x|x|x|x|x|x|x|x|x|x|x|x|b|l]; cbn [decoded_by] in Hby; cbn [marshal_packet];
+    try destruct Hby as [_ Hu].
+  - apply SR_marshal_no_panic.
+  - apply RR_marshal_no_panic.
+  - rewrite SDES_marshal_char. destruct (forallb _ _); [|discriminate]. destruct (31 <? _); discriminate.
+  - rewrite BYE_marshal_char. destruct (31 <? _); [discriminate|]. destruct (255 <? _); discriminate.
+  - rewrite APP_marshal_char. destruct (65523 <? _); [discriminate|]. destruct (negb _); [discriminate|].
+    destruct (31 <? _); discriminate.
+  - pose proof (NACK_unmarshal_image f x Hu) as (Hs & Hme & H1 & Hdd).
+    destruct (N.le_gt_cases (nl (nack_pairs x)) 253) as [Hn|Hn].
+    + rewrite (NACK_marshal_spec x (NACK_image_D x Hs Hme H1 Hn Hdd)). discriminate.
+    + rewrite NACK_marshal_limit by exact Hn. discriminate.
+  - rewrite (RRR_marshal_spec x (RRR_unmarshal_image f x Hu)). discriminate.
+  - apply (TWCC_reencode_no_panic f x Hu).
+  - apply (CCFB_reencode_no_panic f x Hf Hu).
+  - rewrite (PLI_marshal_spec x (PLI_unmarshal_image f x Hu)). discriminate.
+  - exfalso. exact (decode_frame_never_sli f x Hd).
+  - unfold REMB_marshal. destruct (255 <? _); [discriminate|].
+    destruct (remb_enc _) as [[e m]|]; discriminate.
+  - pose proof (FIR_unmarshal_image f x Hu) as (_ & _ & Hn & _). rewrite (FIR_marshal_wide x Hn). discriminate.
+  - rewrite (XR_reencode_spec f x Hu Hm4). discriminate.
+  - discriminate.
+  - destruct Hby.
+Qed.
+
+Lemma frames_marshal_no_panic : forall fs ps, Forall framed16 fs -> mapM decode_frame fs = Ok ps ->
+  Marshal ps <> Panic /\ Marshal ps <> Fuel.
+Proof.
+  induction fs as [|f fs IH]; intros ps Hf Hm.
+  - cbn [mapM] in Hm. injection Hm as <-. cbn [Marshal]. not_panic.
+  - apply mapM_cons_ok in Hm as (p & ps0 & Hd & Hm & ->). inversion Hf as [|? ? Hf1 Hf2]; subst.
+    destruct (frame_marshal_no_panic f p Hf1 Hd) as [A B]. destruct (IH ps0 Hf2 Hm) as [C D].
+    cbn [Marshal]. destruct (marshal_packet p) as [d| | |]; cbn [bind]; try congruence; [|not_panic].
+    destruct (Marshal ps0) as [ds| | |]; cbn [bind]; try congruence; not_panic.
+Qed.
+
+Theorem datagram_reencode_no_panic b ps : Unmarshal b = Ok ps -> Marshal ps <> Panic /\ Marshal ps <> Fuel.
+Proof.
+  intros Hu. destruct (Unmarshal_ok_split b ps Hu) as (fs & _ & Hf & _ & Hm).
+  exact (frames_marshal_no_panic fs ps Hf Hm).
+Qed.
+
+(* ------------------------------------------------------------------------------------------------ *)
+(* the side conditions of stable_pkt are needed (frame level witnesses)                              *)
+(* ------------------------------------------------------------------------------------------------ *)
+Ltac framed16_conc :=
+  split; [split; [|split]|]; vm_compute; first [reflexivity | discriminate].
+
+Definition reencode_fails (f : bytes) : Prop :=
+  exists p b', framed16 f /\ decode_frame f = Ok p /\ marshal_packet p = Ok b' /\
+               ~ (exists p', decode_frame b' = Ok p' /\ framed16 b' /\ pkt_equiv p p').
+
+(* TWCC with an inconsistent header (length field announcing more than the content): the re-encoding no longer decodes *)
+Lemma frame_reencode_twcc_refuted : reencode_fails twcc_slack /\
+  match decode_frame twcc_slack with Ok p => ~ stable_pkt twcc_slack p | _ => False end.
+Proof.
+  split.
+  - eexists. eexists. split; [framed16_conc|]. split; [vm_compute; reflexivity|]. split; [vm_compute; reflexivity|].
+    intros (p' & Hd & _). vm_compute in Hd. discriminate Hd.
+  - vm_compute. intros X. discriminate X.
+Qed.
+
+(* REMB, finding F16: mantissa field 0 with exponent field 58: the second decoding yields another bitrate *)
+Lemma frame_reencode_remb_refuted : reencode_fails remb_zero_packet /\
+  match decode_frame remb_zero_packet with Ok p => ~ stable_pkt remb_zero_packet p | _ => False end.
+Proof.
+  split.
+  - eexists. eexists. split; [framed16_conc|]. split; [vm_compute; reflexivity|]. split; [vm_compute; reflexivity|].
+    intros (p' & Hd & _ & He). vm_compute in Hd. injection Hd as <-. cbn [pkt_equiv] in He. discriminate He.
+  - vm_compute. intros [X|X]; [apply X; reflexivity|discriminate X].
+Qed.
+
+(* FIR, finding F20: a 65540-octet frame (length field 16384, which wraps to 0 in the decoder's uint16 arithmetic)
+   decodes to a FIR without entries, whose 12-octet re-encoding is rejected *)
+Definition fir_wrap_frame : bytes := [n2b 132; n2b 206; n2b 64; x00] ++ zeros 65536.
+Lemma frame_reencode_fir_refuted : reencode_fails fir_wrap_frame /\
+  match decode_frame fir_wrap_frame with Ok p => ~ stable_pkt fir_wrap_frame p | _ => False end.
+Proof.
+  split.
+  - eexists. eexists. split; [framed16_conc|]. split; [vm_compute; reflexivity|]. split; [vm_compute; reflexivity|].
+    intros (p' & Hd & _). vm_compute in Hd. discriminate Hd.
+  - vm_compute. intros X. apply X. reflexivity.
+Qed.
+
+(* CCFB: a frame of the maximal size 262140 whose last report block reaches into the timestamp decodes to a value of
+   262144 octets; Marshal succeeds (length field 65535), and Unmarshal rejects the result (finding F18) *)
+Definition ccfb_blk (nrf pad : N) : bytes := be 4 0 ++ be 2 0 ++ be 2 nrf ++ zeros pad.
+Definition ccfb_max_frame : bytes :=
+  [n2b 139; n2b 205; n2b 255; n2b 254] ++ be 4 1 ++ List.concat (repeat (ccfb_blk 16383 32768) 7) ++ ccfb_blk 16345 32692.
+Lemma frame_reencode_ccfb_refuted : framed16 ccfb_max_frame /\ len ccfb_max_frame = 262140 /\
+  match decode_frame ccfb_max_frame with
+  | Ok (PCCFB p) => match CCFB_marshal p with Ok b' => len b' = 262144 /\ Unmarshal b' = Err /\ ~ framed16 b' | _ => False end
+  | _ => False
+  end.
+Proof.
+  split; [framed16_conc|]. split; [vm_compute; reflexivity|].
+  vm_compute. split; [reflexivity|]. split; [reflexivity|]. intros [_ X]. discriminate X.
+Qed.
+
+(* ------------------------------------------------------------------------------------------------ *)
+Print Assumptions decode_frame_never_sli.
+Print Assumptions SR_frame_reencode.
+Print Assumptions RR_frame_reencode.
+Print Assumptions SDES_frame_reencode.
+Print Assumptions BYE_frame_reencode.
+Print Assumptions APP_frame_reencode.
+Print Assumptions NACK_frame_reencode.
+Print Assumptions PLI_frame_reencode.
+Print Assumptions RRR_frame_reencode.
+Print Assumptions FIR_frame_reencode.
+Print Assumptions CCFB_frame_reencode.
+Print Assumptions REMB_frame_reencode.
+Print Assumptions TWCC_frame_reencode.
+Print Assumptions XR_frame_reencode.
+Print Assumptions Raw_frame_reencode.
+Print Assumptions frame_reencode.
+Print Assumptions frames_reencode.
+Print Assumptions datagram_reencode.
+Print Assumptions datagram_reencode_split.
+Print Assumptions frames_unique.
+Print Assumptions stable_dgram_unique.
+Print Assumptions CCFB_marshal_wide.
+Print Assumptions CCFB_reencode_no_panic.
+Print Assumptions frame_marshal_no_panic.
+Print Assumptions datagram_reencode_no_panic.
+Print Assumptions frame_reencode_twcc_refuted.
+Print Assumptions frame_reencode_remb_refuted.
+Print Assumptions frame_reencode_fir_refuted.
+Print Assumptions frame_reencode_ccfb_refuted.
